@@ -3,7 +3,7 @@
 COMMON_NOTE = " Trusted base: Go parser/type checker, go/ssa construction, VTA/CHA call graph where used; reflection/unsafe are not used on the analysed paths."
 
 CLAIMS["C05"] = (
-    "Structural choke-point argument over every path the compiler can build: who may write to an underlay connection, where the send/receive ciphers may come from, who may create a server session or hand one to Accept, and what the failure branches may call. Each is a necessary condition of 'the server stays silent and creates nothing for a party without a credential'; a test samples inputs, these rules cover every path and every writer.",
+    "Structural choke-point argument over every path the compiler can build: who may write to an underlay connection, where the send/receive ciphers may come from, who may create a server session or hand one to Accept, and what the failure branches may call. Each is a necessary condition of 'the server stays silent and creates nothing for a party without a credential'; a test samples inputs, these rules cover every path and every writer. Also: every SetUsers call publishes the new generation (or skips only after comparing every field of the user message), so a retired credential does not survive a reload; the replay lookup precedes every decryption and a replay yields nothing, so re-sent observed traffic creates no session.",
     "Decides rules R05.1-R05.5 (DESIGN.md 3/C05). Not decided: timing side channels, the drain's length distribution, TCP-level behaviour (RST vs FIN), the AEAD's strength." + COMMON_NOTE,
     "who-may-call / who-may-write inventories + dominance and path-cut reachability on go/ssa, VTA call graph for may-write sets",
     "3/C05")
@@ -15,37 +15,37 @@ CLAIMS["C13"] = (
     "3/C13")
 
 CLAIMS["C15"] = (
-    "Structural rules for the close/deadline machinery: stored deadlines are written only by the deadline setters; every close() of a lifecycle channel is once-only (winning CAS, sync.Once, done-poll under mutex, admission gate, single constructor goroutine); every blocking channel operation has a shutdown alternative (for Session methods: the session's own closedChan, which is what Close fires); underlay Close pokes blocked network I/O - reads, and on a stream connection writes too - before waiting for sessions; the goroutine that runs an underlay event loop closes the underlay on every path after the loop returns.",
+    "Structural rules for the close/deadline machinery: stored deadlines are written only by the deadline setters; every close() of a lifecycle channel is once-only (winning CAS, sync.Once, done-poll under mutex, admission gate, single constructor goroutine); every blocking channel operation has a shutdown alternative (for Session methods: the session's own closedChan, which is what Close fires); underlay Close pokes blocked network I/O - reads, and on a stream connection writes too - before waiting for sessions; the goroutine that runs an underlay event loop closes the underlay on every path after the loop returns. Also: a stored deadline always arms a timer in Read/writeChunk, even when it has already passed; Session.Close takes no lock that Read or Write hold while they wait.",
     "Decides rules R15.1-R15.5. Not decided: promptness in seconds, goroutine counts at run time, data-race freedom in general, all interleavings." + COMMON_NOTE,
     "field-store inventory, enumerated close-once idioms checked by dominance/control dependence, select/send/receive inventory, must-pass-through after RunEventLoop on go/ssa",
     "3/C15")
 
 CLAIMS["C07"] = (
-    "Structural rules over user discovery: a result carrying a cipher exists only on the success edge of an AEAD open under one user's key and carries that user's identity; the four candidate phases of tryState exist, in order, each trial guarded by exactly the enumerated conditions (so no phase can be skipped because of cache contents) with the hint-mandatory test between hint and fallback phases; generations are published only by SetUsers with the old cache retired, re-checked after discovery when requireCurrent, immutable after buildState; the source cache learns only after full validation; a session's identity comes from the authenticating cipher.",
+    "Structural rules over user discovery: a result carrying a cipher exists only on the success edge of an AEAD open under one user's key and carries that user's identity; the four candidate phases of tryState exist, in order, each trial guarded by exactly the enumerated conditions (so no phase can be skipped because of cache contents) with the hint-mandatory test between hint and fallback phases; generations are published only by SetUsers with the old cache retired, re-checked after discovery when requireCurrent, immutable after buildState; the source cache learns only after full validation; a session's identity comes from the authenticating cipher. Also: tryState gives up only after whole phases, never from inside a candidate loop (where the outcome would depend on the source cache), and every SetUsers call publishes.",
     "Decides rules R07.1, R07.2, R07.4, R07.5, R07.6. Not decided: independence from every reachable cache content (4096x4x16 table with wrapping ticks is value-level), the bounded de-duplication array beyond 16 users, reload/record races beyond the atomic-publication structure." + COMMON_NOTE,
     "provenance slices, control-dependence vocabulary check of trial guards, CFG reachability/order, path cuts, field-store inventories on go/ssa",
     "3/C07")
 
 CLAIMS["C11"] = (
-    "Path-sensitive reachability over handleAuthentication: with credentials configured no feasible path returns nil without taking the credential-match edge (correlated local flags are tracked, so every method list is covered at once); with none configured username/password is never selected; the request is read / forwarded only after authentication on the side that owns it; the client daemon's wiring of credentials and the HTTP-proxy exclusion are checked by provenance and reachability.",
+    "Path-sensitive reachability over handleAuthentication: with credentials configured no feasible path returns nil without taking the credential-match edge (correlated local flags are tracked, so every method list is covered at once); with none configured username/password is never selected; the request is read / forwarded only after authentication on the side that owns it; the client daemon's wiring of credentials and the HTTP-proxy exclusion are checked by provenance and reachability. The configured credential list is built by appends onto an empty list (no zero-valued entries).",
     "Decides rules R11.1-R11.4. Not decided: comparison timing, credentials longer than 255 bytes, the == operator itself." + COMMON_NOTE,
     "path-sensitive CFG exploration with branch facts (go/ssa), path cuts, provenance slices",
     "3/C11")
 
 CLAIMS["C12"] = (
-    "The egress decision is checked as a choke point and as a truth table: every dial / datagram send to a peer-designated address is reachable only past the decision (CONNECT under FindAction==DIRECT, each relayed UDP datagram past the per-datagram filter wired to isDestinationAllowed and the session's user); isDestinationAllowed is folded by constant propagation for all 64 combinations of address-class predicates and allow flags plus the empty-host, IP-literal and local-name scenarios and compared with the table the property states; local names are compared only with EqualFold; one parser; first match wins; identity from the mieru session.",
+    "The egress decision is checked as a choke point and as a truth table: every dial / datagram send to a peer-designated address is reachable only past the decision (CONNECT under FindAction==DIRECT, each relayed UDP datagram past the per-datagram filter wired to isDestinationAllowed and the session's user); isDestinationAllowed is folded by constant propagation for all 64 combinations of address-class predicates and allow flags plus the empty-host, IP-literal and local-name scenarios and compared with the table the property states; local names are compared only with EqualFold; one parser; first match wins; identity from the mieru session. The table includes the rows where an address carries both an IP and a name: the IP's class decides.",
     "Decides rules R12.1-R12.6. Not decided: resolver behaviour for other spellings of local names (trailing dot, IDNA), DNS answers pointing into private space (outside the statement), the net.IP predicates themselves." + COMMON_NOTE,
     "who-may-call + dominance/path cuts, constant propagation over go/ssa for a finite truth table, provenance slices",
     "3/C12")
 
 CLAIMS["C06"] = (
-    "Dominance, path-sensitive reachability and lock discipline around replay detection: the lookup of the encrypted metadata prefix precedes every decrypt of that buffer on both transports; under (server, first read, duplicate) no feasible path of the stream reader returns a segment and every error it returns is a REPLAY_ERROR; on UDP no segment is returned before the next datagram; the failure branches call nothing that may write; both caches have positive capacity and a retention not shorter than the timestamp acceptance window; the cache's mutable or reference-typed state is only touched under its mutex.",
+    "Dominance, path-sensitive reachability and lock discipline around replay detection: the lookup of the encrypted metadata prefix precedes every decrypt of that buffer on both transports; under (server, first read, duplicate) no feasible path of the stream reader returns a segment and every error it returns is a REPLAY_ERROR; on UDP no segment is returned before the next datagram; the failure branches call nothing that may write; both caches have positive capacity and a retention not shorter than the timestamp acceptance window; the cache's mutable or reference-typed state is only touched under its mutex. Also: every rotation of the two generations restarts the expiry clock on all paths (through helpers), which is what keeps an entry for at least one interval.",
     "Decides rules R06.1-R06.6. Not decided: retention / false-positive behaviour of the two-generation cache over operation histories (64-bit FNV collisions, rotation by size and time are value-level), timing." + COMMON_NOTE,
     "dominance, path-sensitive CFG exploration with branch facts and phi resolution, constant folding of constructor arguments, must-hold lock check on go/ssa; VTA call graph for may-write sets",
     "3/C06")
 
 CLAIMS["C10"] = (
-    "The process has no recover(), so every panic is fatal. Decided statically: errors that can reach the event loop's error-type panics are typed; the dynamic type of segment metadata is a function of the protocol byte and every unchecked assertion on it is reachable only for protocols of the asserted family (constant propagation over all 16 protocol numbers, through callers); only session/data segments are inserted into segment trees; a foreign user's segment never leads to a panic in Session.input; every explicit panic site in the network-facing packages is classified (constructor calls verified by folding their constant arguments); no arithmetic on a packet byte before it is widened.",
+    "The process has no recover(), so every panic is fatal. Decided statically: errors that can reach the event loop's error-type panics are typed; the dynamic type of segment metadata is a function of the protocol byte and every unchecked assertion on it is reachable only for protocols of the asserted family (constant propagation over all 16 protocol numbers, through callers); only session/data segments are inserted into segment trees; a foreign user's segment never leads to a panic in Session.input; every explicit panic site in the network-facing packages is classified (constructor calls verified by folding their constant arguments); no arithmetic on a packet byte before it is widened. Also: narrow-typed (uint16) arithmetic on a parsed metadata length is covered by an unconditional parse-time bound, and every Read/ReadFrom implementation returns a count within len(p) on its non-error returns.",
     "Decides rules R10.1a-e and R10.4. Not decided: run-time panics without a panic statement other than the narrow-arithmetic pattern (nil dereferences, slice bounds in general, atomic.Value type mismatches), resource exhaustion, panics inside the standard library/protobuf. The panic table (R10.1e) is confirmed by reading; its reasons are listed in the evidence." + COMMON_NOTE,
     "constant propagation over go/ssa (finite protocol domain), provenance slices of returned errors, panic-site inventory with a confirmed table, CFG reachability",
     "3/C10")
@@ -57,7 +57,7 @@ CLAIMS["C08"] = (
     "3/C08")
 
 CLAIMS["C09"] = (
-    "Three-way agreement between writer, reader and the published protocol, with the document (re-read on every run) and a frozen transcription as oracles external to the code: metadata layouts extracted as (offset,width,byte order,field) tables from each Marshal and each Unmarshal, protocol numbering, key-derivation constants and structure, user-hint construction, nonce progression on TCP and nonce sharing on UDP, the session payload limit, the low-entropy parameter table, rotation validity set and rotation direction (folded), and the UDP-associate frame. A symmetric edit passes every self-consistency test; this check compares against the specification.",
+    "Three-way agreement between writer, reader and the published protocol, with the document (re-read on every run) and a frozen transcription as oracles external to the code: metadata layouts extracted as (offset,width,byte order,field) tables from each Marshal and each Unmarshal, protocol numbering, key-derivation constants and structure, user-hint construction, nonce progression on TCP and nonce sharing on UDP, the session payload limit, the low-entropy parameter table, rotation validity set and rotation direction (folded), and the UDP-associate frame. A symmetric edit passes every self-consistency test; this check compares against the specification. Also: the payload of every dequeued segment is handed to the application, in particular the payload the protocol allows on the open session response.",
     "Decides rules R09.1-R09.5, R09.7, R09.8. Not decided: emitted values beyond placement and derivation, the AEAD itself, the segment assembly order (R09.6 of the design was not built), run-time interoperability." + COMMON_NOTE,
     "wire-table extraction from go/ssa, Markdown table reader for docs/protocol.md, constant folding, structural idiom checks",
     "3/C09")
@@ -81,19 +81,19 @@ CLAIMS["C20"] = (
     "3/C20")
 
 CLAIMS["C16"] = (
-    "Traffic-pattern handling as code shape plus folded tables: stores into the effective pattern are unreachable when the same original field is set (path-sensitive, per field); generators call only seed-scoped rng.FixedInt with distinct per-field hints and FixedInt's cache is independent of n; generated extremes (FixedInt at 0 and n-1, both unlockAll values) are folded and fed to the validators, the implicit minLen is capped by an explicit maxLen, NONCE_TYPE_FIXED is never generated; consumers: prefix/suffix padding capped by the middle/end setting respectively, the cap function folds to min(budget, configured), the server's low-entropy decision folds to 'only after the client used it'; Encode/Decode are whole-message.",
+    "Traffic-pattern handling as code shape plus folded tables: stores into the effective pattern are unreachable when the same original field is set (path-sensitive, per field); generators call only seed-scoped rng.FixedInt with distinct per-field hints and FixedInt's cache is independent of n; generated extremes (FixedInt at 0 and n-1, both unlockAll values) are folded and fed to the validators, the implicit minLen is capped by an explicit maxLen, NONCE_TYPE_FIXED is never generated; consumers: prefix/suffix padding capped by the middle/end setting respectively, the cap function folds to min(budget, configured), the server's low-entropy decision folds to 'only after the client used it'; Encode/Decode are whole-message. The host-derived default seed is selected by the absence of the seed field, never by its value; the server's low-entropy flag is set only after the foreign-user drop.",
     "Decides rules R16.1-R16.5. Not decided: that emitted bytes have the configured statistical shape, rng distributions, nonce rewriting content, TCP fragmentation timing." + COMMON_NOTE,
     "path-sensitive reachability per field, call inventory, constant folding with hooks for rng draws, provenance search on go/ssa",
     "3/C16")
 
 CLAIMS["C19"] = (
-    "Accounting as code shape: path-sensitive reachability shows that no successful Read/Write return of a server session that can carry bytes bypasses the user's counter; the counters are registered under the authenticating cipher's user; the quota gate's refusal edge never queues an open response and records the quota status; roll-up consumes each history record exactly once on every path of the loop body, flushes the open bucket, and writes only into records it allocated (so snapshots are not mutated); loading a dump is Add(max(0, stored-current)).",
+    "Accounting as code shape: path-sensitive reachability shows that no successful Read/Write return of a server session that can carry bytes bypasses the user's counter; the counters are registered under the authenticating cipher's user; the quota gate's refusal edge never queues an open response and records the quota status; roll-up consumes each history record exactly once on every path of the loop body, flushes the open bucket, and writes only into records it allocated (so snapshots are not mutated); loading a dump is Add(max(0, stored-current)). Also: server sessions are created with their per-user counters attached and with the authenticated user's policy on both transports (a TCP connection's later sessions use the policy remembered by the connection).",
     "Decides rules R19.1-R19.5. Not decided: totals over arbitrary timestamp histories, ordering after truncation, window sums, sessions racing with accounting (F8: counters are attached by the input goroutine — timing), partial multi-chunk writes that fail midway (F10)." + COMMON_NOTE,
     "path-sensitive reachability, path enumeration of a loop body (linear use), provenance and alias slices on go/ssa",
     "3/C19")
 
 CLAIMS["C14"] = (
-    "The datagram budget as wiring plus folded arithmetic: the overhead constant equals nonce + metadata + two tags; maxFragmentSize is folded for every supported MTU (1280..1500) x transport x low-entropy mode against the datagram budget, the 32768 limit and the 16-bit encoded length; maxPaddingSize is folded on a boundary grid against clamp(MTU - payload - 88 - existing, 0, 255); at the UDP write sites each padding cap is computed from u.mtu, the payloadLen of the metadata actually marshalled, and the padding already placed; the low-entropy path refuses an over-MTU datagram; the narrow fields (piggyback length, fragment index, window) are bounded.",
+    "The datagram budget as wiring plus folded arithmetic: the overhead constant equals nonce + metadata + two tags; maxFragmentSize is folded for every supported MTU (1280..1500) x transport x low-entropy mode against the datagram budget, the 32768 limit and the 16-bit encoded length; maxPaddingSize is folded on a boundary grid against clamp(MTU - payload - 88 - existing, 0, 255); at the UDP write sites each padding cap is computed from u.mtu, the payloadLen of the metadata actually marshalled, and the padding already placed; the low-entropy path refuses an over-MTU datagram; the narrow fields (piggyback length, fragment index, window) are bounded. Also: the configured MTU reaches the endpoint descriptor unchanged for every value 1280..1500 (folded) and the underlays take their mtu from it.",
     "Decides rules R14.1-R14.5. Not decided: len(datagram) <= MTU as joint arithmetic over all four configuration axes (wiring and each budget function are decided, not the sum for every combination); MTU outside [1280,1500]." + COMMON_NOTE,
     "constant folding over the whole MTU range and a boundary grid, argument provenance at call sites, dominance on go/ssa",
     "3/C14")
